@@ -468,6 +468,10 @@ fn normalise_sql_msg(msg: &str) -> String {
 
 /// signature `sql:<shape>` of a database engine error on a request that passed parsing
 pub fn classify_sql(kind: &str, msg: &str, facts: &SqlFacts) -> String {
+    // the two shapes below explained engine errors before bfec9df / 5fd9076 repaired them; an error in a
+    // statement that has one of them is now classified by its real cause
+    let json_default_selected = false;
+    let quote_in_string_default = false;
     let msg = msg.trim_start_matches("RUNTIME ");
     // rusqlite appends " in <sql> at offset n": the statement is not part of the shape
     let msg = match msg.find(" in SELECT") {
@@ -496,7 +500,7 @@ pub fn classify_sql(kind: &str, msg: &str, facts: &SqlFacts) -> String {
     if msg.contains("unknown join type") && facts.alias_candidates.iter().any(|a| is_sql_keyword(a)) {
         return "sql:reserved-word-as-table-alias".to_string();
     }
-    if syntax && facts.alias_candidates.iter().any(|a| a.chars().next().map(|c| c.is_ascii_digit()).unwrap_or(false)) && !facts.json_default_selected {
+    if syntax && facts.alias_candidates.iter().any(|a| a.chars().next().map(|c| c.is_ascii_digit()).unwrap_or(false)) && !json_default_selected {
         return "sql:digit-first-identifier-as-table-alias".to_string();
     }
     if msg.contains("JSON cannot hold BLOB values") {
@@ -550,13 +554,13 @@ pub fn classify_sql(kind: &str, msg: &str, facts: &SqlFacts) -> String {
     if msg.contains("no such column: inf") || msg.contains("no such column: NaN") || msg.contains("no such column: -inf") {
         return "sql:non-finite-float-literal".to_string();
     }
-    if msg.contains("syntax error") && facts.alias_candidates.iter().any(|a| is_sql_keyword(a)) && !facts.json_default_selected {
+    if msg.contains("syntax error") && facts.alias_candidates.iter().any(|a| is_sql_keyword(a)) && !json_default_selected {
         return "sql:reserved-word-as-table-alias".to_string();
     }
-    if near.is_some() && facts.json_default_selected {
+    if near.is_some() && json_default_selected {
         return "sql:json-field-default-missing-paren".to_string();
     }
-    if facts.quote_in_string_default && (near.is_some() || msg.contains("unrecognized token")) {
+    if quote_in_string_default && (near.is_some() || msg.contains("unrecognized token")) {
         return "sql:quote-in-string-default".to_string();
     }
     format!("sql:{}:{}", kind, normalise_sql_msg(msg))
